@@ -34,11 +34,7 @@ ArithOps == {"Add", "Subtract", "Multiply", "Divide", "IntegerDivide", "Remainde
 UnaryNumOps == {"Opposite", "AbsoluteValue", "BitwiseNot"}
 CmpOps == {"LessThan", "LessThanOrEqual", "GreaterThan", "GreaterThanOrEqual"}
 RangeOps == {"MakeRange", "MakeStartExclusiveRange", "MakeEndExclusiveRange", "MakeExclusiveRange"}
-TypeName(v) == CASE v.t = "unit" -> "Unit" [] v.t = "true" -> "True" [] v.t = "false" -> "False" [] v.t \in {"int", "float"} -> "Number"
-                 [] v.t = "char" -> "Char" [] v.t = "byte" -> "Byte" [] v.t = "sym" -> "Symbol" [] v.t = "symlist" -> "SymbolList"
-                 [] v.t = "str" -> "CharList" [] v.t = "bytes" -> "ByteList" [] v.t = "pair" -> "Pair" [] v.t = "list" -> "List"
-                 [] v.t = "concat" -> "Concatenation" [] v.t = "range" -> "Range" [] v.t = "slice" -> "Slice" [] v.t = "partial" -> "Partial"
-                 [] v.t = "expr" -> "Expression" [] v.t = "ext" -> "External" [] v.t = "type" -> "Type" [] OTHER -> "Custom"
+\* (TypeName: Values.tla)
 
 (* ---- data movement *)
 DoPut(P, S, ins) == Push(S, ins.c)
